@@ -338,9 +338,10 @@ result<bool> url_pattern<regex_provider>::test(
     }
   }
 
-  auto url =
-      ada::parse<url_aggregator>(std::get<std::string_view>(input),
-                                 base_url.has_value() ? &*base_url : nullptr);
+  // `base_url` is a default-constructed (hence "has a value") expected when no
+  // base string was given: only a parsed base may be used for resolution.
+  auto url = ada::parse<url_aggregator>(std::get<std::string_view>(input),
+                                        base_url_string ? &*base_url : nullptr);
   if (!url) {
     return false;
   }
@@ -465,8 +466,9 @@ result<std::optional<url_pattern_result>> url_pattern<regex_provider>::match(
       inputs.emplace_back(*base_url_string);
     }
 
-    url_aggregator* base_url_value =
-        base_url.has_value() ? &*base_url : nullptr;
+    // `base_url` is a default-constructed (hence "has a value") expected when
+    // no base string was given: only a parsed base may be used for resolution.
+    url_aggregator* base_url_value = base_url_string ? &*base_url : nullptr;
 
     // Set url to the result of parsing input given baseURL.
     auto url = ada::parse<url_aggregator>(std::get<std::string_view>(input),
